@@ -103,10 +103,11 @@ func zzArbitraryBackoffer(ctx context.Context, cfg *Config, vars *kv.Variables) 
 func ZZ_C20_step() {
 	zzNoSleepNative()
 	cfg := zzAllConfigs[zzChoice("cfg", len(zzAllConfigs))]
-	// attempt index: all of 0..14 in the thorough tier, a boundary subset in quick
-	attempts := zzChoice("attempts", 15)
+	// attempt index: all of 0..70 in the thorough tier (the doubling must stay capped
+	// long after base*2^n has left the 64-bit range), a boundary subset in quick
+	attempts := zzChoice("attempts", 71)
 	if zzParam("tier", 0) == 0 {
-		zzAssume(attempts <= 2 || attempts == 4 || attempts == 8 || attempts == 14)
+		zzAssume(attempts <= 2 || attempts == 14 || attempts == 57 || attempts == 62 || attempts == 64)
 	}
 	lockFast := 10
 	if cfg.name == txnLockFastName {
